@@ -4,6 +4,7 @@ import (
 	"bufio"
 	"bytes"
 	"fmt"
+	"os"
 	"sort"
 	"strconv"
 	"strings"
@@ -20,7 +21,29 @@ func init() {
 		return func(cases [][]string, out *bufio.Writer) { isolatedCases(prop, cases, 16, out, runPool) }
 	}
 	batchProbes["C07"] = f("C07")
-	batchProbes["C06"] = f("C06")
+	// C06 pushes one population through all four data paths
+	batchProbes["C06"] = func(cases [][]string, out *bufio.Writer) {
+		dispatch := func(c []string) string {
+			if c[1] == "rump" {
+				return runRump(c)
+			}
+			return runPool(c)
+		}
+		if os.Getenv("RSPROBE_CHILD") == "1" {
+			isolatedCases("C06", cases, 1, out, dispatch)
+			return
+		}
+		var iso, inc [][]string
+		for _, c := range cases {
+			if c[1] == "inc" {
+				inc = append(inc, c)
+			} else {
+				iso = append(iso, c)
+			}
+		}
+		isolatedCases("C06", iso, 24, out, dispatch)
+		batchIncr(inc, out)
+	}
 }
 
 func listOf(s string) []string {
